@@ -1,6 +1,45 @@
 /-
 C20 — property theorems. Model: `HydroVerif/Model/C20.lean`; helper lemmas: `Lemmas/C20*.lean`.
-All statements are over an arbitrary ordered field `α` (so over ℚ and ℝ), for every size.
+All statements are over an arbitrary ordered field `α` (so over ℚ and ℝ; with a floor function for the quantile part),
+for every size. Every model function named below is executed by `Drivers/C20.lean` and compared with the real code.
+
+Clause of the property → theorems → what stays outside the theorems
+* lhs: exactly one point in each of the n equal strata of every parameter range (sizes 1.., 1..6 parameters, arbitrary finite ranges)
+    theorems: lhsColumn_one_point_per_stratum, lhsColumn_in_range, lhs_jitter_range, lhsColumns_one_point_per_stratum, lhs_one_point_per_stratum, lhs_broadcast
+    outside: np.random.permutation returns a permutation and uniform(low,high)=low+(high-low)r with r in [0,1) (hypotheses; checked on every recorded draw); IEEE rounding at stratum edges (oracle tolerance)
+* lhs glue: pmax of length 1 broadcast, wrong length / pmax<=pmin / nsamples=0 rejected
+    theorems: lhs_broadcast, lhs_rejects_length, lhs_rejects_empty_range, lhs_rejects_zero_samples
+    outside: int()/astype conversions of the arguments; error kinds compared as ok/err only
+* ppos: strictly increasing, in (0,1), symmetric about 0.5, for all sizes and constants in [0,0.5]; constants outside rejected
+    theorems: ppos_accepts, ppos_rejects, ppos_strictly_increasing, ppos_in_unit_interval, ppos_symmetric
+    outside: nothing (Float instance compared bit-for-bit, exact-rational instance within 1e-14)
+* normal scores are a strictly increasing function of the data ranks (NaN-free vectors, with and without ties)
+    theorems: standardNormal_eq, rank_order_preserving, normal_scores_argument_in_unit_interval, normal_scores_increasing_in_rank, standardNormalSorted_increasing, standardNormal_rejects_nan, standardNormalSorted_rejects_nan
+    outside: norm.ppf is a parameter (hypothesis: strictly increasing on (0,1)); pandas rank is compared by result for average/min/max, methods first/dense are not modelled; standard_normal does not validate cst - the theorems assume cst in [0,0.5] as documented for ppos (outside it the positions leave (0,1) and ppf is NaN)
+* pareto_front flags a point dominated exactly when another point is strictly better in every non-missing coordinate
+    theorems: paretoFront_length, paretoFront_flag_iff, paretoFrontNd_iff
+    outside: Cython wrapper (astype float64, ascontiguousarray) exercised through C/Fortran/int inputs, not modelled; ±inf coordinates (inf-inf is NaN in C) are not values of the exact model
+* the non-dominated set of complete data is never empty
+    theorems: paretoFront_exists_nondominated
+    outside: nothing (any orientation value, any number of points >= 1, columns >= 1)
+* reversing the orientation equals negating the data
+    theorems: paretoFront_orientation_neg
+    outside: nothing; both sides are executed by the driver (ops pareto / paretoneg)
+* box-plot summaries: count of finite values; percentiles at the levels implied by the coverages, in non-decreasing order between min and max (coverage box in [40,100), whiskers above it)
+    theorems: computePercentiles_levels, quantile_linear_interpolation, quantile_within_min_max, quantile_monotone, quantile_zero_one, percentile_within_min_max, percentile_monotone, boxStats_summary, boxStats_few_values, boxStats_ignores_nonfinite, boxStats_total
+    outside: numpy's partition-based selection of order statistics is replaced by a sort (same values); pairwise summation of the mean (theorem: mean*count = sum exactly; Float within n*1e-13); the NaN row under 4 values is the code's rule, stated as boxStats_few_values
+* box-plot glue: coverage guards, levels outside [0,100]
+    theorems: boxplotCheck_iff, percentile_rejects_level, boxStats_rejects_whiskers_above_100, boxStatsBy_rejects_coverage, boxStatsBy_rejects_one_category, boxStatsBy_accepts
+    outside: DataFrame/Series conversion of the input (BoxplotError on non-numeric data) not modelled; one-decimal row labels are pandas/format glue: two levels printing to the same label is the known finding Boxplot.stats/by/percentile_label_collision
+* group-wise values equal those of each group taken alone (2+ categories of unequal size)
+    theorems: groupBy_groups_are_buckets, groupBy_keys_increasing, boxStatsBy_group_alone, boxStatsBy_accepts
+    outside: pandas groupby/apply/pivot_table are external: the model scans the rows into buckets itself; category labels are integers in the model (strings are mapped by the harness)
+* violin summaries are the sample statistics of the finite values of each column
+    theorems: violinStats_summary, median_eq_quantile_half, violinStats_no_finite_value
+    outside: pandas median/quantile compared by result (few ulp)
+* density profiles normalised to [0,1]
+    theorems: normalise_unit_range, violinGrid_profile, violinGrid_no_profile, violinSelect_keeps_all
+    outside: gaussian_kde is external (evaluated by the harness on the values the model selects); a flat kernel profile (all values equal) has no normalisation - hypothesis of normalise_unit_range; the 1e-6 jitter of the abscissae is an input (recorded numpy draws)
 -/
 import HydroVerif.Lemmas.C20
 import HydroVerif.Lemmas.C20Quantile
@@ -138,6 +177,13 @@ theorem paretoFront_exists_nondominated (o : α) (d : List (List (Option α))) (
   rw [hfi, hfj] at hle
   have : o * (a - b) = o * a - o * b := by ring
   linarith
+
+/-- the wrapper accepts 2-dimensional data only -/
+theorem paretoFrontNd_iff (ndim : Nat) (o : α) (d : List (List (Option α))) :
+    (paretoFrontNd ndim o d = .ok (paretoFront o d) ↔ ndim = 2) ∧
+    (paretoFrontNd ndim o d = .error .ndim ↔ ndim ≠ 2) := by
+  unfold paretoFrontNd
+  by_cases h : ndim = 2 <;> simp [h]
 
 /-- reversing the orientation equals negating the data -/
 theorem paretoFront_orientation_neg (o : α) (d : List (List (Option α))) :
@@ -627,6 +673,25 @@ theorem boxStats_few_values (data : List (Option α)) (b w : α) (hcount : (data
     boxStats data b w = .ok ((data.filterMap id).length, none) :=
   boxStats_few_eq data b w hcount
 
+/-- for coverages `0 ≤ box ≤ whiskers ≤ 100` the call never fails, whatever the column holds -/
+theorem boxStats_total (data : List (Option α)) (b w : α) (hb : 0 ≤ b) (hbw : b ≤ w) (hw : w ≤ 100) :
+    ∃ r, boxStats data b w = .ok r := by
+  by_cases hcount : 3 < (data.filterMap id).length
+  · obtain ⟨v, hv, _⟩ := boxStats_summary data b w hb hbw hw hcount
+    exact ⟨_, hv⟩
+  · exact ⟨_, boxStats_few_values data b w (not_lt.mp hcount)⟩
+
+/-- a whiskers coverage above 100 asks numpy for a negative percentile: rejected as soon as there are
+four finite values (with fewer the percentiles are never computed and the NaN row is returned) -/
+theorem boxStats_rejects_whiskers_above_100 (data : List (Option α)) (b w : α) (hw : 100 < w)
+    (hcount : 3 < (data.filterMap id).length) : boxStats data b w = .error .percentileRange := by
+  have hneg : (computePercentiles w).1 < 0 := by
+    simp only [computePercentiles, Nat.cast_ofNat]
+    linarith
+  have h1 := percentile_rejects_level (sortL (data.filterMap id)) (computePercentiles w).1 (Or.inl hneg)
+  unfold boxStats
+  simp only [gt_iff_lt, hcount, if_true, h1]
+
 /-- NaN / ±inf entries change nothing: the statistics are those of the finite values alone -/
 theorem boxStats_ignores_nonfinite (data : List (Option α)) (b w : α) :
     boxStats data b w = boxStats ((data.filterMap id).map some) b w := by
@@ -751,6 +816,29 @@ theorem violinStats_no_finite_value (data : List (Option α)) (h : data.filterMa
   rw [h]
   simp [sortL, median]
 
+/-- three finite values or more, not all equal: there is a profile; the density is estimated on ALL the
+finite values, and the abscissae are `npoints_kde` numbers in non-decreasing order -/
+theorem violinGrid_profile (eps : α) (data : List (Option α)) (npts : Nat) (err : List α)
+    (herr : err.length = npts / 2) (h3 : 2 < (data.filterMap id).length)
+    (a b : α) (ha : a ∈ data.filterMap id) (hb : b ∈ data.filterMap id) (hab : a < b) :
+    ∃ x, violinGrid eps data npts err = .ok (some (data.filterMap id, x)) ∧ x.length = npts ∧
+      x.Pairwise (· ≤ ·) := by
+  have hne : data.filterMap id ≠ [] := List.ne_nil_of_mem ha
+  obtain ⟨x0, h0⟩ := minL_isSome hne
+  obtain ⟨x1, h1⟩ := maxL_isSome hne
+  have hlt : x0 < x1 := lt_of_le_of_lt ((minL_spec h0).2 a ha) (lt_of_lt_of_le hab ((maxL_spec h1).2 b hb))
+  have hsne : sortL (data.filterMap id) ≠ [] := List.ne_nil_of_length_pos (by rw [sortL_length]; omega)
+  obtain ⟨qv, hqv, hqlen⟩ := quantilesAt_ok (sortL (data.filterMap id)) hsne (linspace 0 1 (npts / 2))
+    (linspace_unit_mem (npts / 2))
+  refine ⟨sortL (linspace x0 x1 (npts - npts / 2) ++ List.zipWith (fun a b => a + b) qv err), ?_, ?_, sortL_sorted _⟩
+  · unfold violinGrid
+    simp only [h0, h1]
+    rw [if_neg (by push Not; exact ⟨by omega, hlt⟩), if_neg (by simp [herr])]
+    simp only [hqv, violinSelect_keeps_all]
+    rfl
+  · rw [sortL_length, List.length_append, linspace_length, List.length_zipWith, hqlen, linspace_length, herr]
+    omega
+
 /-- fewer than three finite values, or a constant column: no density profile -/
 theorem violinGrid_no_profile (eps : α) (data : List (Option α)) (npts : Nat) (err : List α)
     (h : (data.filterMap id).length ≤ 2 ∨ ∀ a ∈ data.filterMap id, ∀ b ∈ data.filterMap id, a = b) :
@@ -844,6 +932,47 @@ theorem boxStatsBy_group_alone (cats : List Int) (data : List (Option α)) (b w 
       · intro k hk
         exact k2 k _ ((groupBy_groups_are_buckets cats data k _).mpr ⟨rfl, hk⟩)
 
+/-- with two categories or more (or none) and coverages `40 ≤ box < whiskers ≤ 100` the grouped call succeeds -/
+theorem boxStatsBy_accepts (cats : List Int) (data : List (Option α)) (b w : α)
+    (hcat : (groupBy cats data).length ≠ 1) (hb : 40 ≤ b) (hbw : b < w) (hw : w ≤ 100) :
+    ∃ gs, boxStatsBy cats data b w = .ok gs ∧ gs.length = (groupBy cats data).length := by
+  have key : ∀ (groups : List (Int × List (Option α))),
+      ∃ out, statsOfGroups b w groups = .ok out ∧ out.length = groups.length := by
+    intro groups
+    induction groups with
+    | nil => exact ⟨[], rfl, rfl⟩
+    | cons g t ih =>
+      obtain ⟨rest, hrest, hlen⟩ := ih
+      obtain ⟨st, hst⟩ := boxStats_total g.2 b w (by linarith) hbw.le hw
+      exact ⟨(g.1, st.1, st.2) :: rest, by simp only [statsOfGroups, hst, hrest], by simp [hlen]⟩
+  have hchk : boxplotCheck b w = .ok () := (boxplotCheck_iff b w).mpr ⟨hb, hbw⟩
+  obtain ⟨out, hout, hlen⟩ := key (groupBy cats data)
+  refine ⟨out, ?_, hlen⟩
+  unfold boxStatsBy
+  simp only [hcat, if_false, hchk, hout]
+
+/-- a grouping vector with a single category is rejected -/
+theorem boxStatsBy_rejects_one_category (cats : List Int) (data : List (Option α)) (b w : α)
+    (hcat : (groupBy cats data).length = 1) : boxStatsBy cats data b w = .error .oneCategory := by
+  unfold boxStatsBy
+  simp only [hcat, if_true]
+
+/-- box coverage below 40, or whiskers coverage not above it, is rejected (two categories or more) -/
+theorem boxStatsBy_rejects_coverage (cats : List Int) (data : List (Option α)) (b w : α)
+    (hcat : (groupBy cats data).length ≠ 1) (h : b < 40 ∨ w ≤ b) :
+    boxStatsBy cats data b w = .error .boxCoverage ∨ boxStatsBy cats data b w = .error .whiskersCoverage := by
+  unfold boxStatsBy boxplotCheck
+  simp only [hcat, if_false, Nat.cast_ofNat]
+  by_cases h1 : b < 40
+  · left; simp [h1]
+  · right
+    have h2 : w ≤ b := h.resolve_left h1
+    simp [h1, h2]
+
+example : (boxStatsBy [1, 2, 1, 2, 1, 1, 2] [some (1 : Rat), some 5, some 2, none, some 3, some 4, some 6] 50 90).toOption.map
+      (fun gs => gs.map fun g => (g.1, g.2.1, g.2.2.map fun v => [v.w1, v.med, v.w2]))
+    = some [(1, 4, some [23 / 20, 5 / 2, 77 / 20]), (2, 2, none)] := by decide +kernel
+
 end groupstats
 
 /-! ### the hypotheses are met by concrete inputs (evaluated by the kernel on ℚ) -/
@@ -856,6 +985,8 @@ example : (violinStats [some (1 : Rat), none, some 3, some 2, some 4]).toOption.
       (fun r => r.map fun v => [v.q0, v.q25, v.med, v.q75, v.q100])
     = some (some [1, 7 / 4, 5 / 2, 13 / 4, 4]) := by decide +kernel
 example : percentile [(1 : Rat), 2, 4, 8] 50 = .ok 3 := by decide +kernel
+example : (violinGrid (1 / 10000000000 : Rat) [some 1, some 2, none, some 4] 4 [0, 1 / 1000000]).toOption
+    = some (some ([1, 2, 4], [1, 1, 4, 4000001 / 1000000])) := by decide +kernel
 example : LhsInputsOK 2 [(0 : Rat)] [1] [[1, 0]] [[1 / 2, 0]] := by
   simp only [LhsInputsOK, List.range_succ, List.range_zero, List.nil_append, List.cons_append]
   refine ⟨by norm_num, List.Perm.swap 0 1 [], rfl, ?_, trivial⟩
